@@ -855,9 +855,25 @@ func ruleTxErr(c *core.Ctx, rule string, fn *ssa.Function) int {
 				}
 			}
 			errEdges := core.NilEdgesRes(f, ev, false)
+			type startAt struct {
+				p   core.Point
+				env core.Env
+			}
+			var starts []startAt
+			for _, e := range errEdges {
+				p0, env0 := core.AfterEdge(e)
+				starts = append(starts, startAt{p0, env0})
+			}
 			if len(errEdges) == 0 {
-				c.Violate(rule, construct, call.Pos(), "the error result of the SQL write is never tested")
-				return
+				// the error is not tested where it is produced (`r = write(); break` of an expanded helper, then
+				// `if r != nil`): follow the paths from the write itself under the fact "the error is non-nil"; the
+				// nil-ness of the Phi it travels through follows that fact
+				evi, isInstr := ev.(ssa.Instruction)
+				if !isInstr {
+					c.Violate(rule, construct, call.Pos(), "the error result of the SQL write is never tested")
+					return
+				}
+				starts = append(starts, startAt{core.After(evi), core.Env{ev: false}})
 			}
 			sx := core.NewSymx().Bind(ev, "ERR")
 			dup := core.TermEdges(f, sx, func(s string, _ *core.Term) bool {
@@ -886,8 +902,8 @@ func ruleTxErr(c *core.Ctx, rule string, fn *ssa.Function) int {
 				return true
 			}
 			var bad *core.Found
-			for _, e := range errEdges {
-				start, env0 := core.AfterEdge(e)
+			for _, st := range starts {
+				start, env0 := st.p, st.env
 				fnd := (&core.Walk{EdgeOK: core.Forbid(dup), TargetPath: func(i ssa.Instruction, path []int) bool {
 					if r, ok := i.(*ssa.Return); ok {
 						if len(r.Results) == 0 {
